@@ -18,7 +18,7 @@ from harness.drive import f2b
 
 ID = "C13"
 THEOREM_MODULES = ["JF.Props.C13", "JF.Props.C13Refine"]
-COMPONENTS = ["store"]
+COMPONENTS = ["store", "output"]
 ASSUMPTIONS = ["identifiers are tuples of non-negative integers; trees have one or two levels "
                "(setting.number_of_node_levels in {1,2}); a client mutates branches only through the operations "
                "modelled in JF.Store.Op (in-place item assignment, Time.update, re-binding a field to a NEW object "
@@ -680,6 +680,15 @@ def run(ctx):
                 "is (operation, structural outcome) as registered with ctx.cls")
     procs = start_real(ctx)
     shrunk = {}
+    # "only commits change the global state": the extracted GLOBAL state hands out the stored field objects themselves, and the output
+    # handlers receive it at every sampling event - a `write` that modifies what it is handed changes the global state without a commit.
+    # The output-handler sessions of harness/outcorr.py (real handler classes, several writes per object) compare the handed state before
+    # and after every write (signature output:write-changes-the-state-it-is-handed:<kind>)
+    try:
+        from harness import outcorr
+        outcorr.check(ctx, sessions=ctx.n(200, 2000))
+    except Exception as e:  # noqa
+        ctx.disagree("output.check", {"where": "outcorr.check (C13)"}, "evaluated", repr(e))
 
     def flush(sessions):
         # one model process per batch of sessions
